@@ -24,7 +24,8 @@ func init() {
 var errC13 = errors.New("c13: validator failure")
 
 func genC13(rng *rand.Rand, n int, emit func(Case), dist map[string]int) {
-	creds := []string{"joe:secret", "joe:wrong:secret", "joe:wrong", ":secret", "joe:", "nocolon", "", "jo\xffe:secret", "boom:x", "boomok:x", "a:b:c:secret", "joe:secret:", "ann:pw1", "ann:secret"}
+	creds := []string{"joe:secret", "joe:wrong:secret", "joe:wrong", ":secret", "joe:", "nocolon", "", "jo\xffe:secret", "boom:x", "boomok:x", "a:b:c:secret", "joe:secret:", "ann:pw1", "ann:secret",
+		"joe:secret\n", "joe:secret\r\n", "joe:\n", "joe:secret ", " joe:secret", "joe\n:secret", "ann:pw1\t"} // (surrounding blanks / line ends: part of the password, not noise)
 	keys := []string{"valid-key", "other-key", "boom", "boomok", "", "Valid-Key", "valid-key ", "k2"}
 	lookups := []string{"header:Authorization", "header:X-Api-Key", "query:key", "form:key", "cookie:key", "header:Authorization,query:key", "query:key,cookie:key", "header:X-Api-Key:Token ", "form:key,header:Authorization", "param:key", "param:key,query:key", "header:Authorization:Token ", "header:Authorization:ApiKey ",
 		"header:Authorization,header:X-Api-Key", "header:X-Api-Key:Token ,header:X-Other", "header:X-Other,header:Authorization", "cookie:key,header:X-Api-Key:Key ,header:X-Other"}
